@@ -179,7 +179,7 @@ def step (d : DS) (toks : List String) : DS × String :=
     ({ d with rs := r.1 }.run r.2, s!"{encCmds r.2} | {encRS r.1}")
   | ["term", top] =>
     match decNat top with
-    | some top => ({ d with term := Term.fresh d.w d.h top (fun _ _ => TCell.blank) }, "ok")
+    | some top => ({ d with term := Term.fresh d.w (d.h - top) top (fun _ _ => TCell.blank) }, "ok")
     | none => bad
   | ["rebase"] => ({ d with term := d.term.rebase }, "ok")
   | ["grid"] => (d, encGrid d.term)
